@@ -191,4 +191,33 @@ def c14_sweep(seed=0, n=150):
     return {"violates": False, "cases": cases}
 
 
-CALLS = {"c14_value": c14_value, "c14_shape": c14_shape, "c14_plain": c14_plain, "c14_sweep": c14_sweep}
+
+def c14_refused(x=0):
+    import io
+    import pathlib
+
+    from flow.record import RecordDescriptor
+    from flow.record.adapter.jsonfile import JsonfileReader, JsonfileWriter
+
+    D = RecordDescriptor("c14/refuse", [("path[]", "x"), ("varint", "n")])
+    E = RecordDescriptor("c14/other", [("varint", "n")])
+    bad = D(x=["/a"], n=1)
+    bad.x.append(pathlib.PurePosixPath("/not/converted"))
+    good = [D(x=["/b"], n=x), E(n=5), D(x=[], n=3)]
+    fp = io.StringIO()
+    w = JsonfileWriter(fp)
+    try:
+        w.write(bad)
+        return {"violates": True, "detail": "the unserialisable record was accepted"}
+    except Exception:
+        pass
+    for r in good:
+        w.write(r)
+    try:
+        back = list(JsonfileReader(io.StringIO(fp.getvalue())))
+    except Exception as e:
+        return {"violates": True, "detail": f"after a refused write, reading back raised {type(e).__name__}: {e}"}
+    a, b = [H.deep(r) for r in good], [H.deep(r) for r in back]
+    return {"violates": a != b, "detail": f"after a refused write: written {len(a)} record(s), read {len(b)}; equal: {a == b}"}
+
+CALLS = {"c14_refused": c14_refused, "c14_value": c14_value, "c14_shape": c14_shape, "c14_plain": c14_plain, "c14_sweep": c14_sweep}
